@@ -356,28 +356,9 @@ def run(chk, repo):
     # ------------------------------------------------------------------ l: GTF pointers read exactly their byte range
     chk.rule('C11.l', 'R-KEYS: gene / transcript pointers seek to their start offset and read exactly end - start bytes before decoding', 2)
     chk.clauses.append('C11.l a GTF pointer is resolved by seeking to `start` and reading `len(self) = end - start` raw bytes, decoded afterwards')
-    from sa import sem as _s11
+    from rules.shared import pointer_byte_range
     for cls_ in ('GenePointer', 'TranscriptPointer'):
-        lf = repo.func(f'gtf.GTFPointer:{cls_}.load')
-        chk.uses(lf)
-        nlf = _s11.nf(repo, lf)
-        ch11 = _s11.block_chains(nlf)
-        seeks = [(st, c) for st in ast.walk(nlf) if isinstance(st, ast.stmt) and _s11.own_stmt(st) for c in _s11.calls_in_stmt(st, 'seek')]
-        reads = [(st, c) for st in ast.walk(nlf) if isinstance(st, ast.stmt) and _s11.own_stmt(st) for c in _s11.calls_in_stmt(st, 'read')]
-        okl = len(seeks) == 1 and len(reads) == 1
-        det = f"{len(seeks)} seek / {len(reads)} read calls"
-        if okl:
-            s_st, s_c = seeks[0]
-            r_st, r_c = reads[0]
-            a0 = unparse(_s11.expand_names(nlf, s_st, s_c.args[0], chains=ch11)) if s_c.args else ''
-            whence = unparse(s_c.args[1]) if len(s_c.args) > 1 else '0'
-            rel = re.sub(r'\s', '', a0)
-            ok_seek = (whence == '1' and rel == 'self.start-self.handle.tell()') or (whence == '0' and rel == 'self.start')
-            ra = unparse(_s11.expand_names(nlf, r_st, r_c.args[0], chains=ch11)) if r_c.args else ''
-            ok_read = re.sub(r'\s', '', ra) in ('len(self)', 'self.end-self.start')
-            okl = ok_seek and ok_read
-            det = f"seek({a0}, {whence}); read({ra})"
-        chk.ob('C11.l', f"{cls_}.load seeks to start and reads end - start bytes", lf.where, okl, f"{cls_}.load: {det}", key=lf.qual + '::byte-range', fn=lf.qual)
+        pointer_byte_range(chk, repo, 'C11.l', f'gtf.GTFPointer:{cls_}.load', f"{cls_}.load")
     ln_ = repo.func('gtf.GTFPointer:GTFPointer.__len__')
     chk.ob('C11.l', 'pointer length = end - start', ln_.where, unparse(ln_.node.body[-1]) == 'return self.end - self.start', 'GTFPointer.__len__ altered', key=ln_.qual, fn=ln_.qual)
 
